@@ -436,6 +436,9 @@ pub fn run(ctx: &Ctx) -> (Report, PropertyMeta) {
     report.sections.push(json!({"part": "random histories: sends, joins, actor steps, write windows (partial / stalled-then-released)", "cases": n}));
     report.merge(r);
 
+    if t == Tier::Thorough {
+        crate::fuzzing::campaign(ctx, &mut report, "sim", 180);
+    }
     let total = report.evaluations;
     health(&mut report, "rotation-window-checked", total, 200);
     health(&mut report, "joiner-window-checked", total, 50);
